@@ -79,6 +79,40 @@ fn splitter(full: &str) -> HashMap<String, Option<String>> {
     m
 }
 
+fn check_text(ctx: &mut Ctx, family: &str, idx: u64, s: &str) {
+    ctx.case(true, fnv(s.as_bytes()) ^ 0x19A);
+    ctx.sample(family, || json!({"len": s.len(), "head": s.chars().take(40).collect::<String>()}));
+    let case = || json!({"family": family, "idx": idx, "string": s});
+    let res = monitor::guard(|| {
+        let txt = TXT::try_from(s).map_err(|e| format!("TXT::try_from: {:?}", e))?;
+        let direct = String::try_from(txt.clone()).map_err(|e| format!("String::try_from: {:?}", e))?;
+        let lens: Vec<usize> = txt.verif_strings().iter().map(|x| x.len()).collect();
+        let (wire_strings, parsed) = wire_roundtrip(&txt)?;
+        let after = String::try_from(parsed).map_err(|e| format!("String::try_from(parsed): {:?}", e))?;
+        Ok::<_, String>((direct, lens, wire_strings, after))
+    });
+    match res {
+        Err(pn) => ctx.panic_violation("TXT text conversion", &pn, case()),
+        Ok(Err(e)) => ctx.violation("text-lossless", "text-conversion-failed", e, case()),
+        Ok(Ok((direct, lens, wire_strings, after))) => {
+            if direct != *s {
+                ctx.violation("text-lossless", "split-join-differs", format!("joined text differs (len {} vs {})", direct.len(), s.len()), case());
+            } else if after != *s {
+                ctx.violation("text-lossless", "split-join-differs-after-wire", "text differs after the wire".into(), case());
+            } else if lens.iter().any(|l| *l > 255) || wire_strings.iter().any(|w| w.len() > 255) {
+                ctx.violation("chunks-fit", "chunk-over-255", format!("chunk lengths {:?}", lens), case());
+            } else if wire_strings.concat() != s.as_bytes() && !(s.is_empty() && wire_strings.concat().is_empty()) {
+                ctx.violation("text-lossless", "wire-chunks-differ", "character-strings on the wire do not concatenate to the text".into(), case());
+            } else {
+                ctx.count("texts_lossless");
+                if s.len() > 254 && !s.is_char_boundary(254) {
+                    ctx.count("texts_with_multibyte_char_across_first_chunk_boundary");
+                }
+            }
+        }
+    }
+}
+
 pub fn run(ctx: &mut Ctx) {
     let tier = ctx.tier;
     // (a) text split/join
@@ -96,37 +130,36 @@ pub fn run(ctx: &mut Ctx) {
             _ => r.usize(0, 1100),
         };
         let s = gen_string(&mut r, target);
-        ctx.case(true, fnv(s.as_bytes()) ^ 0x19A);
-        ctx.sample("text", || json!({"len": s.len(), "head": s.chars().take(40).collect::<String>()}));
-        let case = || json!({"family": "text", "idx": idx, "string": s});
-        let res = monitor::guard(|| {
-            let txt = TXT::try_from(s.as_str()).map_err(|e| format!("TXT::try_from: {:?}", e))?;
-            let direct = String::try_from(txt.clone()).map_err(|e| format!("String::try_from: {:?}", e))?;
-            let lens: Vec<usize> = txt.verif_strings().iter().map(|x| x.len()).collect();
-            let (wire_strings, parsed) = wire_roundtrip(&txt)?;
-            let after = String::try_from(parsed).map_err(|e| format!("String::try_from(parsed): {:?}", e))?;
-            Ok::<_, String>((direct, lens, wire_strings, after))
-        });
-        match res {
-            Err(pn) => ctx.panic_violation("TXT text conversion", &pn, case()),
-            Ok(Err(e)) => ctx.violation("text-lossless", "text-conversion-failed", e, case()),
-            Ok(Ok((direct, lens, wire_strings, after))) => {
-                if direct != s {
-                    ctx.violation("text-lossless", "split-join-differs", format!("joined text differs (len {} vs {})", direct.len(), s.len()), case());
-                } else if after != s {
-                    ctx.violation("text-lossless", "split-join-differs-after-wire", "text differs after the wire".into(), case());
-                } else if lens.iter().any(|l| *l > 255) || wire_strings.iter().any(|w| w.len() > 255) {
-                    ctx.violation("chunks-fit", "chunk-over-255", format!("chunk lengths {:?}", lens), case());
-                } else if wire_strings.concat() != s.as_bytes() && !(s.is_empty() && wire_strings.concat().is_empty()) {
-                    ctx.violation("text-lossless", "wire-chunks-differ", "character-strings on the wire do not concatenate to the text".into(), case());
-                } else {
-                    ctx.count("texts_lossless");
-                    if s.len() > 254 && !s.is_char_boundary(254) {
-                        ctx.count("texts_with_multibyte_char_across_first_chunk_boundary");
+        check_text(ctx, "text", idx, &s);
+    }
+    // (a2) punctuation that text-handling code is tempted to interpret (quotes, backslash, parentheses, separators, NUL, line ends):
+    // every string up to four of them, alone and as the first / last characters of each 254-byte piece of a long text
+    if ctx.family_active("text-special") {
+        const SP: [&str; 13] = ["\"", "'", "\\", "a", " ", "=", ";", "(", ")", "@", "\0", "\t", "\n"];
+        let lmax = if ctx.slow_tool { 1 } else { tier.pick(3usize, 4usize) };
+        let mut base = 0u64;
+        for l in 0..=lmax {
+            let total = 13u64.pow(l as u32);
+            for k in 0..total {
+                let idx = base + k;
+                if !ctx.take("text-special", idx) {
+                    continue;
+                }
+                let w: String = crate::gen::digits(k, 13, l).into_iter().map(|d| SP[d]).collect();
+                check_text(ctx, "text-special", idx, &w);
+                if l == 2 {
+                    // the two characters as first and last byte of piece 0, 1 and 2, and of a piece of 255 and 256 bytes
+                    let (x, y) = (SP[crate::gen::digits(k, 13, 2)[0]], SP[crate::gen::digits(k, 13, 2)[1]]);
+                    for (pre, mid) in [(0usize, 252usize), (254, 252), (508, 252), (0, 10), (254, 100), (0, 253), (0, 254), (0, 251)] {
+                        let t = format!("{}{}{}{}{}", "p".repeat(pre), x, "m".repeat(mid), y, "s".repeat((k % 3) as usize * 7));
+                        check_text(ctx, "text-special", idx, &t);
                     }
+                    ctx.add("texts_with_special_piece_ends", 8);
                 }
             }
+            base += total;
         }
+        ctx.sample("text-special", || json!({"alphabet": "\" ' \\ a space = ; ( ) @ NUL TAB LF", "max_len": lmax}));
     }
     // (b) attribute maps
     let nb = if ctx.slow_tool { 12 } else { tier.pick(50_000u64, 4_000_000u64) };
